@@ -20,10 +20,13 @@ EXPLANATION = ("doWF is symbolically executed for every channel count N in the s
                "values (one path per ordering), the removal loop is unrolled completely (bound = N). Discharged per path: "
                "P>=0, sum P = Pt, P_i = max(0, mu - noise/(Es g_i)) for the RETURNED mu (KKT structure), and permutation "
                "equivariance.  Bounded in N, unbounded in values.  Optimality follows from the KKT structure by lemma L-KKT "
-               "(concavity), which is an assumed lemma here; a bounded native check compares against perturbed allocations.")
+               "(concavity; machine-checked for every N in Lean 4 + Mathlib, lemmas/WaterFillingKKT.lean, thorough tier; an assumed lemma "
+               "in the quick tier); a bounded native check compares against perturbed allocations.")
 ASSUMPTIONS = [
     "ideal-real arithmetic (the loop test sum(Ps) > dPt is a float comparison in the real code)",
-    "assumed lemma L-KKT: a feasible allocation with the water-filling (KKT) structure maximises sum log2(1+g Es p/noise)",
+    "lemma L-KKT: a feasible allocation with the water-filling (KKT) structure maximises sum log2(1+g Es p/noise) over all "
+    "non-negative allocations of the same total power: proved for all N in Lean 4 + Mathlib in the thorough tier "
+    "(lemma/kkt_structure_implies_capacity_optimal_lean); assumed in the quick tier",
     "N bounded: quick 1..4, thorough 1..6; larger N only in the bounded native check (N <= 60)",
 ]
 TRUSTED_BASE = ["numpy argsort / fancy indexing executed natively on object arrays"]
@@ -150,20 +153,20 @@ def ob_native():
         tol = 1e-9 * max(Pt, 1.0)
         if P.shape != g.shape:
             return {"shape": list(P.shape)}
-        if P.min() < -tol:
+        if (not (P.min() >= -tol)):
             return {"negative power": float(P.min())}
-        if abs(P.sum() - Pt) > 1e-9 * Pt:
+        if (not (abs(P.sum() - Pt) <= 1e-9 * Pt)):
             return {"sum": float(P.sum()), "Pt": Pt}
         want = np.maximum(0, mu - nv / (Es * g))
-        if np.abs(P - want).max() > tol + 1e-9 * abs(mu):
+        if (not (np.abs(P - want).max() <= tol + 1e-9 * abs(mu))):
             return {"P": P.tolist(), "max(0,mu-noise/(Es g))": want.tolist(), "mu": float(mu)}
         Pr, mur = _reference_wf(g, Pt, nv, Es)
-        if np.abs(P - Pr).max() > 1e-7 * max(Pt, 1.0):
+        if (not (np.abs(P - Pr).max() <= 1e-7 * max(Pt, 1.0))):
             return {"P": P.tolist(), "reference": Pr.tolist()}
         rr = np.random.RandomState(case["seed"])
         perm = rr.permutation(len(g))
         P2, mu2 = doWF(g[perm], Pt, nv, Es)
-        if np.abs(P2 - P[perm]).max() > tol or abs(mu2 - mu) > 1e-9 * abs(mu):
+        if (not (np.abs(P2 - P[perm]).max() <= tol)) or (not (abs(mu2 - mu) <= 1e-9 * abs(mu))):
             return {"permutation": perm.tolist(), "P2": P2.tolist(), "P[perm]": P[perm].tolist()}
         c0 = cap(g, Es, nv, P)
         for _ in range(20):
@@ -174,7 +177,69 @@ def ob_native():
             q = P.copy()
             q[i] -= d
             q[j] += d
-            if cap(g, Es, nv, q) > c0 * (1 + 1e-12) + 1e-12:
+            if (not (cap(g, Es, nv, q) <= c0 * (1 + 1e-12) + 1e-12)):
                 return {"better allocation": q.tolist(), "P": P.tolist(), "capacity": [c0, cap(g, Es, nv, q)]}
         return None
     return bounded(gen(), check)
+
+
+@obligation("native/input_representation_independent", kind="exhaustive", timeout=300,
+            desc="the ideal-real proof treats a gain as a number: on the real code the result must not depend on HOW the same numbers are "
+                 "stored - every gain vector of a fixed set (integer-valued and dyadic gains, so each representation is exact) as "
+                 "float64 / float32 / int64 / int32 / uint8 arrays, non-contiguous views, and with int / numpy-scalar Pt, noise, Es: "
+                 "same allocation and water level as the float64 call (1e-12; 1e-5 where an operand is float32)")
+def ob_representation():
+    from pyphysim.comm.waterfilling import doWF
+    vectors = [[9, 4, 2, 1], [1], [3, 3], [1, 2, 4, 8, 16], [16, 1], [2, 2, 2, 1], [0.5, 0.25, 8.0], [5, 1, 1, 7, 3, 2]]
+    budgets = [(2, 1, 1), (0.3, 1, 4), (10, 2, 1), (1, 0.5, 2), (100, 1, 1)]
+
+    def cases():
+        for g in vectors:
+            for (Pt, nv, Es) in budgets:
+                for rep in ("float32", "int64", "int32", "uint8", "strided", "reversed_view", "scalar_types", "np_scalars"):
+                    if rep in ("int64", "int32", "uint8") and any(float(x) != int(x) for x in g):
+                        continue
+                    yield {"g": g, "Pt": Pt, "noise": nv, "Es": Es, "rep": rep}
+
+    def check(case):
+        g64 = np.array(case["g"], dtype=np.float64)
+        Pt, nv, Es = case["Pt"], case["noise"], case["Es"]
+        ref_P, ref_mu = doWF(g64.copy(), float(Pt), float(nv), float(Es))
+        rep = case["rep"]
+        a, b, d = float(Pt), float(nv), float(Es)
+        if rep in ("float32", "int64", "int32", "uint8"):
+            g = g64.astype(rep)
+        elif rep == "strided":
+            buf = np.zeros(2 * len(g64))
+            buf[::2] = g64
+            g = buf[::2]
+        elif rep == "reversed_view":
+            g = g64[::-1].copy()[::-1]
+        elif rep == "scalar_types":
+            g = g64.copy()
+            a, b, d = (int(Pt) if float(Pt) == int(Pt) else Pt), (int(nv) if float(nv) == int(nv) else nv), (int(Es) if float(Es) == int(Es) else Es)
+        else:
+            g = g64.copy()
+            a, b, d = np.float64(Pt), np.float32(nv), np.int64(Es) if float(Es) == int(Es) else np.float64(Es)
+        g0 = np.array(g, copy=True)
+        try:
+            P, mu = doWF(g, a, b, d)
+        except Exception as e:
+            return {"raised": repr(e)}
+        P = np.asarray(P, dtype=float)
+        if not np.array_equal(np.asarray(g), g0):
+            return {"input gains modified": np.asarray(g).tolist()}
+        tol = 1e-5 if rep in ("float32", "np_scalars") else 1e-12      # float32 operands are computed in float32
+        if P.shape != ref_P.shape or (not (np.abs(P - ref_P).max() <= tol * max(1.0, float(Pt)))) or (not (abs(float(mu) - float(ref_mu)) <= tol * abs(float(ref_mu)))):
+            return {"P": P.tolist(), "P for float64 input": ref_P.tolist(), "mu": float(mu), "mu for float64 input": float(ref_mu)}
+        return None
+    from pyvc.oblig import exhaustive
+    return exhaustive(cases(), check)
+
+
+@obligation("lemma/kkt_structure_implies_capacity_optimal_lean", kind="lemma", tiers=("thorough",), timeout=2400,
+            desc="L-KKT for every N (Lean 4 + Mathlib, lemmas/WaterFillingKKT.lean): P_i = max(0, mu - noise/(Es g_i)), sum P = Pt, Q >= 0, "
+                 "sum Q = Pt  =>  sum log2(1 + g_i Es Q_i / noise) <= sum log2(1 + g_i Es P_i / noise)")
+def ob_lemma_kkt_lean():
+    from pyvc.oblig import lean_lemma
+    return lean_lemma("WaterFillingKKT.lean", 2000)
